@@ -69,3 +69,140 @@ def classify(prop, cfg, issue):
 
 def for_property(prop):
     return [f for f in load()['findings'] if prop in f.get('properties', [f.get('property')])]
+
+
+def sig_K6(prop, cfg, issue):
+    return prop in ('C01', 'C02') and cfg.get('objective') == 'fmax'
+
+
+SIGS['K6'] = sig_K6
+
+
+# ------------------------------------------------------------------------------ witnesses
+def direct_k7_span(args):
+    import lib
+    L = lib.load()
+    np = L['np']
+    import opytimizer.math.hypercomplex as hc
+    out = hc.span(np.ones((len(args['lb']), args['d'])), args['lb'], args['ub'])
+    fails = bool(np.any(out > np.asarray(args['ub'])))
+    return fails, dict(span=out.tolist(), ub=args['ub'])
+
+
+def direct_k8_aiwpso(args):
+    import lib
+    L = lib.load()
+    np = L['np']
+    opt = L['kinds']['AIWPSO'](hyperparams={'w_min': args['w_min'], 'w_max': args['w_max']})
+    agents = [L['Agent']() for _ in range(args['n'])]
+    for a in agents:
+        a.fit = 1.0
+    fitness = np.full(args['n'], 2.0)
+    opt._compute_success(agents, fitness)
+    return bool(opt.w > opt.w_max), dict(w=opt.w, w_max=opt.w_max)
+
+
+def direct_k9_nan(args):
+    import lib
+    L = lib.load()
+    opt = L['kinds'][args['cls']]()
+    try:
+        setattr(opt, args['attr'], float('nan'))
+        v = getattr(opt, args['attr'])
+        return bool(v != v), dict(stored=repr(v))
+    except Exception as ex:
+        return False, dict(raised=type(ex).__name__)
+
+
+def direct_k10_pointer(args):
+    import lib
+    L = lib.load()
+    try:
+        L['Function'](pointer=lambda: 0.0)
+        return True, dict(accepted='lambda: 0.0')
+    except Exception as ex:
+        return False, dict(raised=type(ex).__name__)
+
+
+def direct_k10_node(args):
+    import lib
+    L = lib.load()
+    n = L['Node'](name='SUM', type='FUNCTION')
+    try:
+        n.left = 0
+        return n.left == 0 and not isinstance(n.left, L['Node']), dict(stored=repr(n.left))
+    except Exception as ex:
+        return False, dict(raised=type(ex).__name__)
+
+
+def direct_k10_opytimizer(args):
+    import lib
+    L = lib.load()
+    try:
+        L['Opytimizer'](space=None, optimizer=None, function=None)
+        return False, dict(accepted=True)
+    except L['e'].BuildError:
+        return False, dict(raised='BuildError')
+    except AttributeError:
+        return True, dict(raised='AttributeError')
+    except Exception as ex:
+        return True, dict(raised=type(ex).__name__)
+
+
+def direct_k11_clock(args):
+    import lib, time as _t
+    L = lib.load()
+    np = L['np']
+    sp = L['SearchSpace'](n_agents=2, n_variables=1, n_iterations=1, lower_bound=[0], upper_bound=[1])
+    task = L['Opytimizer'](space=sp, optimizer=L['kinds']['PSO'](), function=L['Function'](pointer=lambda x: float(np.sum(x))))
+    import opytimizer.opytimizer as om
+    real = om.time.time
+    ticks = iter([1000.0, 999.0])
+    om.time.time = lambda: next(ticks, 999.0)
+    try:
+        h = task.start()
+    finally:
+        om.time.time = real
+    return bool(h.time[0] < 0), dict(time=h.time)
+
+
+def direct_k12_repro(args):
+    import lib
+    L = lib.load()
+    np = L['np']
+    n = len(args['fitness'])
+    np.random.seed(0)
+    sp = L['TreeSpace'](n_trees=n, n_terminals=2, n_variables=1, n_iterations=1, min_depth=1, max_depth=2,
+                        functions=['SUM'], lower_bound=[0], upper_bound=[1])
+    for a, f in zip(sp.agents, args['fitness']):
+        a.fit = f
+    ids_before = [id(t) for t in sp.trees]
+    gp = L['kinds']['GP'](hyperparams={'p_reproduction': 0.5})
+    gp._reproduction(sp)
+    replaced = [i for i, t in enumerate(sp.trees) if id(t) != ids_before[i]]
+    # two winners, but a single slot (the last) is overwritten twice
+    return bool(len(replaced) == 1), dict(replaced=replaced, expected_if_k_worst=2)
+
+
+DIRECT = {'k7_span': direct_k7_span, 'k8_aiwpso': direct_k8_aiwpso, 'k9_nan': direct_k9_nan,
+          'k10_pointer': direct_k10_pointer, 'k10_node': direct_k10_node, 'k10_opytimizer': direct_k10_opytimizer,
+          'k11_clock': direct_k11_clock, 'k12_repro': direct_k12_repro}
+
+
+def replay_witness(f, prop, driver=None):
+    """-> (still_fails, detail)"""
+    w = f['witness']
+    if w['type'] == 'direct':
+        return DIRECT[w['name']](w.get('args', {}))
+    if w['type'] == 'runlevel':
+        import runpass, common
+        own = driver is None
+        drv = driver or common.Driver()
+        try:
+            r = runpass.analyse_run(w['cfg'], drv, props=[w['expect']['prop']])
+        finally:
+            if own:
+                drv.close()
+        iss = [i for i in r['issues'][w['expect']['prop']] if i['what'] == w['expect']['what']]
+        return bool(iss), dict(issues=len(iss), first=iss[0] if iss else None)
+    return False, dict(error='unknown witness type')
